@@ -39,6 +39,11 @@ StepEv(e) ==
              /\ Check(g4, "commit-outcome", "ok", e.outcome)
              /\ cells' = e.post /\ owner' = [k \in 1..Len(cells) |-> TRUE] /\ pc' = "idle" /\ scratch' = <<>>
              /\ ok' = (ok /\ g1 /\ g2 /\ g3 /\ g4))
+    [] e.op = "bystander" ->   \* another Pattern object (the one the edited pattern was shallow-copied from) looked at after an edit
+       (LET g1 == e.after = e.before   g2 == \A k \in 1..Len(e.owned) : e.owned[k] IN
+        /\ Check(g1, "bulk-edit-changed-another-pattern", e.before, e.after)
+        /\ Check(g2, "bulk-edit-took-another-pattern's-notes", "all owned", e.owned)
+        /\ UNCHANGED vars /\ ok' = (ok /\ g1 /\ g2))
     [] OTHER -> Say("unknown-op", "", e.op) /\ ok' = FALSE /\ UNCHANGED vars
 
 Step == /\ l <= Len(Traces[tid].events) /\ StepEv(Ev) /\ l' = l + 1 /\ UNCHANGED tid
